@@ -1663,6 +1663,18 @@ fn c07(tier: Tier, seed: u64) -> i32 {
 	ctx.require_label("types.rejected_on_marked_line", 30);
 	ctx.require_label("c07.dup_nonadjacent", 1000);
 	ctx.require_label("c07.dup_hidden_in_nested_or_wrapper", 1000);
+	// the same verdict in the middle of a history: the members may be poisoned
+	// (a panic under a guard of theirs), killed or held when the constructor runs
+	{
+		let (cfg, opts) = seq_profile("C07").unwrap();
+		let nontrivial = |_c: &SeqCase, r: &RunResult| has(r, "temp_ctor_dup") && (has(r, "panic_") || has(r, "kill"));
+		let e = SeqEval { prop: "C07", opts, nontrivial: &nontrivial, extra: None };
+		let n = tier.pick(60_000, 1_500_000);
+		ctx.search("seq-checked-constructors-in-the-middle-of-histories", n, 220, |bytes, want| {
+			let case = gen_seq(&mut Src::new(bytes), &cfg);
+			eval_seq_case(&e, &case, want)
+		});
+	}
 	ctx.finish()
 }
 
@@ -2297,6 +2309,18 @@ pub fn seq_profile(prop: &str) -> Option<(SeqCfg, Opts)> {
 				..StepW::default()
 			};
 			let opts = Opts { quiescent: true, ..Default::default() };
+			Some((cfg, opts))
+		}
+		"C07" => {
+			// checked constructors called in the middle of a history: over members
+			// that are poisoned, killed or held at that moment
+			let mut cfg = seq_cfg_general();
+			cfg.max_steps = 14;
+			cfg.world.p_wrap = 150;
+			cfg.world.p_inline_wrap = 60;
+			cfg.world.p_pois_coll = 80;
+			cfg.w = StepW { guard_ops: 6, p_panic: 110, kill: 2, temp_coll: 14, phantom_hold: 2, clear_poison: 1, p_forget_guard: 0, forget_key: 0, ..StepW::default() };
+			let opts = Opts::default();
 			Some((cfg, opts))
 		}
 		"C09" => {
